@@ -82,7 +82,10 @@ def run(ctx):
             # checksum: the guard is  X != Y  with  X - Y == +-(magic + arch + length + checksum)  in Z/2^32
             # (calc(m, a, l) != stored checksum, or m + a + l + c != 0, or any other wrapping rearrangement)
             g = False
-            if p2 is not None and p2[0] == "cmp" and p2[1] == "Ne":
+            # the comparison itself must be one of 32-bit values: `a != b` over a wider type is not `a != b (mod 2^32)` (a u64 sum
+            # compared with 2^32 rejects sums of 2^33)
+            ws = {K.width_of(p2[2]), K.width_of(p2[3])} if p2 is not None and p2[0] == "cmp" else set()
+            if p2 is not None and p2[0] == "cmp" and p2[1] == "Ne" and 32 in ws and ws <= {32, None}:
                 rx, ry = K.ring(p2[2], 32), K.ring(p2[3], 32)
                 if rx is not None and ry is not None:
                     M = 1 << 32
